@@ -68,7 +68,7 @@ CLAIMS = {
         "(#included) under ASan/UBSan diffed against the model on ~19k ops (round trips, every truncation, every length class, all 256 type codes, garbage) and judged by an independent "
         "python reference codec that also checks that members the packet never reaches stay untouched. Bridge (Props/WireCred.lean, 12 theorems): the credential model's request parser and reply "
         "builders (Cred.recvMsg / encRsp / decRsp, used by C01-C10) equal Wire.recv / Wire.send over the generated lists for every byte string. Client side: ~700 scripted replies (well-formed of "
-        "each type incl. combinations a daemon never sends, every length field lying, truncations, wrong type) through the REAL munge_decode / munge_encode under ASan.",
+        "each type incl. combinations a daemon never sends, every length field lying, truncations, wrong type) through the REAL munge_decode / munge_encode under ASan. Props/C14Recv.lean on m_msg_recv AS TRANSLATED from m_msg.c each run: the length gate (unsigned comparison with a positive limit) precedes the allocation and the body read; a successful receive read 11 + pkt_len bytes, allocated exactly pkt_len and freed it once; only four outcomes.",
    note=COMMON_NOTE + "_pack/_unpack/_alloc/_copy themselves and the step order inside recv/send are hand-modelled and tied by correspondence and the chain-order theorem; a socket is modelled as bytes followed by EOF. Found F2 and F8 (fixed).",
    technique="Lean 4 theorems (generic interpreter proofs + decide on field lists regenerated from the C source) + differential correspondence under ASan + python reference codec",
    ref="5/C14"),
